@@ -36,7 +36,7 @@ static int fk_realfd[FK_MAXFD];
 static int fk_ready[FK_MAXFD];		/* explicit readiness (events driver) */
 static long long fk_clock_us = 1000000;	/* starts at 1 s so that nothing is "time zero" */
 static int fk_polls;			/* number of poll calls (runaway guard) */
-static int fk_maxpolls = 100000;
+static int fk_maxpolls = 20000;
 
 struct fk_sched { long long t; int fd; int flags; int done; };
 static struct fk_sched fk_sch[4096];
